@@ -38,6 +38,7 @@ import (
 var usqBaseFilename string
 
 // map of orgid => usq lock
+// usqLock and usqLastReadTime are shared by all orgs: guarded by localUSQInfoLock
 var usqLock map[int64]*sync.Mutex
 var usqLastReadTime map[int64]uint64
 var localUSQInfoLock *sync.RWMutex = &sync.RWMutex{}
@@ -73,14 +74,21 @@ func InitUsq() error {
 }
 
 func acquireOrCreateLock(myid int64) {
-	if _, ok := usqLock[myid]; !ok {
-		usqLock[myid] = &sync.Mutex{}
+	localUSQInfoLock.Lock()
+	orgLock, ok := usqLock[myid]
+	if !ok {
+		orgLock = &sync.Mutex{}
+		usqLock[myid] = orgLock
 	}
-	usqLock[myid].Lock()
+	localUSQInfoLock.Unlock()
+	orgLock.Lock()
 }
 
 func releaseLock(myid int64) {
-	usqLock[myid].Unlock()
+	localUSQInfoLock.RLock()
+	orgLock := usqLock[myid]
+	localUSQInfoLock.RUnlock()
+	orgLock.Unlock()
 }
 
 func writeUsq(qname string, uq map[string]interface{}, myid int64) error {
@@ -90,14 +98,14 @@ func writeUsq(qname string, uq map[string]interface{}, myid int64) error {
 		return errors.New("writeUsq: failed to save query data, query name is empty")
 	}
 
+	// the org's lock is held over read, change and write: two saves must not lose each other's query
 	acquireOrCreateLock(myid)
+	defer releaseLock(myid)
 	err := readSavedQueries(myid)
 	if err != nil {
-		releaseLock(myid)
 		log.Errorf("writeUsq: failed to read save queries, err=%v", err)
 		return errors.New("internal server error, failed to read saved queries")
 	}
-	releaseLock(myid)
 	localUSQInfoLock.Lock()
 	if _, ok := localUSQInfo[myid]; !ok {
 		localUSQInfo[myid] = make(map[string]map[string]interface{})
@@ -243,13 +251,12 @@ func deleteAllUsq(myid int64) error {
 func deleteUsq(qname string, myid int64) (bool, error) {
 
 	acquireOrCreateLock(myid)
+	defer releaseLock(myid)
 	err := readSavedQueries(myid)
 	if err != nil {
-		releaseLock(myid)
 		log.Errorf("DeleteUsq: failed to read, err=%v", err)
 		return false, err
 	}
-	releaseLock(myid)
 	localUSQInfoLock.RLock()
 	if _, ok := localUSQInfo[myid]; !ok {
 		localUSQInfoLock.RUnlock()
@@ -292,7 +299,9 @@ func readSavedQueries(myid int64) error {
 	}
 
 	modifiedTime := uint64(fileInfo.ModTime().UTC().Unix() * 1000)
+	localUSQInfoLock.RLock()
 	lastReadTime, ok := usqLastReadTime[myid]
+	localUSQInfoLock.RUnlock()
 	if ok && modifiedTime <= lastReadTime {
 		return nil
 	}
@@ -314,8 +323,8 @@ func readSavedQueries(myid int64) error {
 	}
 	localUSQInfoLock.Lock()
 	localUSQInfo[myid] = orgSavedQueriesMap
-	localUSQInfoLock.Unlock()
 	usqLastReadTime[myid] = utils.GetCurrentTimeInMs()
+	localUSQInfoLock.Unlock()
 
 	return nil
 }
@@ -335,12 +344,12 @@ Caller must call this via a lock
 func writeSavedQueries(myid int64) error {
 
 	usqFilename := getUsqFileName(myid)
+	// the map is read while it is marshalled: keep the lock until then
 	localUSQInfoLock.RLock()
-	orgMap := localUSQInfo[myid]
+	jdata, err := json.Marshal(localUSQInfo[myid])
 	localUSQInfoLock.RUnlock()
-	jdata, err := json.Marshal(orgMap)
 	if err != nil {
-		log.Errorf("writeSavedQueries: Failed to marshall orgMap=%v, err=%v", orgMap, err)
+		log.Errorf("writeSavedQueries: Failed to marshall the saved queries of myid=%v, err=%v", myid, err)
 		return err
 	}
 
